@@ -25,20 +25,23 @@ import (
 
 type sgHold struct {
 	qnet.Stream
-	mu   sync.Mutex
-	cond *sync.Cond
-	held bool
+	mu        sync.Mutex
+	cond      *sync.Cond
+	held      bool
+	heldUnreg bool // only the unregisterEvent requests are held (a frame is written in one piece)
 }
 
 func (h *sgHold) Write(p []byte) (int, error) {
+	unreg := len(p) >= 28 && p[14] == qnet.Call && binary.LittleEndian.Uint32(p[24:28]) == 1
 	h.mu.Lock()
-	for h.held {
+	for h.held || (h.heldUnreg && unreg) {
 		h.cond.Wait()
 	}
 	h.mu.Unlock()
 	return h.Stream.Write(p)
 }
-func (h *sgHold) set(b bool) { h.mu.Lock(); h.held = b; h.mu.Unlock(); h.cond.Broadcast() }
+func (h *sgHold) set(b bool) { h.mu.Lock(); h.held = b; h.heldUnreg = false; h.mu.Unlock(); h.cond.Broadcast() }
+func (h *sgHold) setUnreg()  { h.mu.Lock(); h.heldUnreg = true; h.mu.Unlock() }
 
 type sgImpl struct{ h pong.PingPongSignalHelper }
 
@@ -275,6 +278,10 @@ func execSg(op string) func(a []string) string {
 			return strconv.Itoa(len(w.conns) - 1)
 		case "hold":
 			w.conns[n(0)].hold.set(true)
+			return "ok"
+		case "holdunreg":
+			// a slow path for unregistrations only: everything else of the connection goes through
+			w.conns[n(0)].hold.setUnreg()
 			return "ok"
 		case "release":
 			k := n(0)
@@ -590,7 +597,7 @@ func sgStorm(a []string) string {
 }
 
 func init() {
-	for _, op := range []string{"reset", "conn", "hold", "release", "sub", "cancel", "emit", "call", "got", "osub", "ocancel", "oemit", "ogot"} {
+	for _, op := range []string{"holdunreg", "reset", "conn", "hold", "release", "sub", "cancel", "emit", "call", "got", "osub", "ocancel", "oemit", "ogot"} {
 		executors["sg."+op] = execSg(op)
 	}
 	executors["sg.burstcancel"] = func(a []string) string {
@@ -705,9 +712,14 @@ func runC13(r *Rand, tier string, o *Out) {
 				}
 			case c < 90:
 				if !held[k] && waiting[k] == 0 {
-					o.Do("P", fmt.Sprintf("sg.hold %d", k), true)
+					if r.Chance(40) {
+						o.Do("P", fmt.Sprintf("sg.holdunreg %d", k), true)
+						o.Count("op:hold-unregistrations")
+					} else {
+						o.Do("P", fmt.Sprintf("sg.hold %d", k), true)
+						o.Count("op:hold")
+					}
 					held[k] = true
-					o.Count("op:hold")
 				}
 			case c < 96:
 				if held[k] {
